@@ -469,7 +469,15 @@ func (v *vc) contractCall(fr *frame, st *state, instr ssa.Instruction, fc *funcC
 		if mentionsGhost(e.expr, fc) {
 			continue // about the callee's own ghost state: nothing the caller can use
 		}
+		// a clause about a local of the callee says nothing the caller can use either
+		se.outOfScopeOK, se.outOfScope, se.scopeFn = true, false, callee
+		nerr := len(v.errs)
 		t := se.evalAssume(e.expr)
+		se.outOfScopeOK, se.scopeFn = false, nil
+		if se.outOfScope {
+			v.errs = v.errs[:nerr]
+			continue
+		}
 		v.fact(st, t)
 	}
 	if fr.top && len(fc.ensures) > 0 {
